@@ -786,6 +786,12 @@ func (d *Ledger) boundarySetup() bool {
 // divergedPair: two holders of the same (token, nonce) whose stored metadata copies differ (one of them added URIs or updated the
 // attributes of its own copy) while the hash is the same: a transfer between them merges into a holding with another copy.
 func (d *Ledger) divergedPair() (from, to string, tok []byte, nonce uint64, ok bool) {
+	return d.copyPair(false)
+}
+
+// copyPair(otherHash): two holders of the same key whose copies have different hashes (the two-creator token) - a credit between them
+// must be refused.
+func (d *Ledger) copyPair(otherHash bool) (from, to string, tok []byte, nonce uint64, ok bool) {
 	hs := d.nftHoldings()
 	meta := func(h holding) *esdt.MetaData {
 		ai := d.W.Info(h.acct)
@@ -807,7 +813,7 @@ func (d *Ledger) divergedPair() (from, to string, tok []byte, nonce uint64, ok b
 				continue
 			}
 			ma, mb := meta(a), meta(b)
-			if ma != nil && mb != nil && bytes.Equal(ma.Hash, mb.Hash) && !ma.Equal(mb) {
+			if ma != nil && mb != nil && ((!otherHash && bytes.Equal(ma.Hash, mb.Hash) && !ma.Equal(mb)) || (otherHash && !bytes.Equal(ma.Hash, mb.Hash))) {
 				l = append(l, pr{a, b})
 			}
 		}
@@ -820,6 +826,16 @@ func (d *Ledger) divergedPair() (from, to string, tok []byte, nonce uint64, ok b
 }
 
 func (d *Ledger) actNFTTransfer() {
+	if from, to, tok, nonce, ok := d.copyPair(true); ok && d.chance(20) {
+		c := d.call("ESDTNFTTransfer", from, from, tok, nb(nonce), d.amt(1), d.W.Addr(to))
+		if d.chance(50) {
+			c = d.call("MultiESDTNFTTransfer", from, from, d.W.Addr(to), nb(1), tok, nb(nonce), d.amt(1))
+		}
+		c.RAE = false
+		d.T.Stats["other-hash-merge"]++
+		d.record("exec", d.shardOfName(from), c)
+		return
+	}
 	if from, to, tok, nonce, ok := d.divergedPair(); ok && d.chance(45) {
 		c := d.call("ESDTNFTTransfer", from, from, tok, nb(nonce), d.amt(1), d.W.Addr(to))
 		if d.chance(40) {
@@ -1713,7 +1729,11 @@ func (d *Ledger) Setup() {
 		c.Gas = 600000
 		d.record("exec", d.shardOfName(u), c)
 		for k := 0; k < 1+i; k++ {
-			cc := d.call("ESDTNFTCreate", u, u, d.Dup, d.amt(3), []byte("dup"), nb(5), []byte(fmt.Sprintf("hash-%d", i)), []byte("a"), []byte("u"))
+			hash := []byte(fmt.Sprintf("hash-%d", i))
+			if i == 0 && d.TraceNo%2 == 0 {
+				hash = []byte{} // "created with an empty hash" is not "does not hold the token"
+			}
+			cc := d.call("ESDTNFTCreate", u, u, d.Dup, d.amt(3), []byte("dup"), nb(5), hash, []byte("a"), []byte("u"))
 			cc.Gas = 600000
 			d.record("exec", d.shardOfName(u), cc)
 		}
